@@ -267,10 +267,14 @@ Inv_C18_nomove_raises(X) == ~\E e \in SeqToSet(X.queue) : e.pid[1] = "CRASH" /\ 
 (* ------------------------------- C19 ------------------------------------ *)
 (* q: the five query results as the implementation (or the spec) gave them *)
 Truth_C19(X, q) ==
-    /\ q.cluIdle => (X.cl.running = {} /\ X.cl.ingest = {} /\ X.cl.occ = {})
+    /\ q.cluIdle => (X.cl.running = {} /\ X.cl.ingest = {} /\ X.cl.occ = {}
+                      (* ... and no task is in flight, whatever the cluster's lists say *)
+                      /\ \A p \in DOMAIN X.procs : p[1] = "WK" => ~X.procs[p].started)
     /\ q.bufEmpty => (X.buf.hotFree = cfg.hotCap /\ X.buf.coldFree = cfg.coldCap
                        /\ \A o \in ObsNames \ X.buf.hotFin : X.obs[o].data = 0)   \* nothing resident
-    /\ q.schIdle => X.sch.queue = {}
+    (* ... an observation handed over for processing stays `scheduled` in the *)
+    (* hot buffer exactly as long as the scheduler has it queued              *)
+    /\ q.schIdle => (X.sch.queue = {} /\ (~cfg.api => X.buf.hotSched = {}))
     /\ q.telIdle => ((\A o \in ObsNames : X.obs[o].status = "FINISHED") /\ X.tel.use = 0)
     /\ q.fin <=> (q.cluIdle /\ q.bufEmpty /\ q.schIdle /\ q.telIdle)
 SpecQueries(X) == [cluIdle |-> CluIdleQ(X), bufEmpty |-> BufEmptyQ(X), schIdle |-> SchIdleQ(X),
